@@ -15,9 +15,12 @@ if go test -mod=mod -vet=off -count=1 ./... >/tmp/vseed_$name.test 2>&1; then re
 rundemo() {
   if [ -f $d/demo.sh ]; then bash $d/demo.sh $wt >/tmp/vseed_$name.demo 2>&1; return $?; fi
   if [ -f $d/demo_test.go ]; then
-    cp $d/demo_test.go $wt/test/zz_seed_demo_test.go
-    go test -mod=mod -vet=off -count=1 -run "^($(grep -o 'func Test[A-Za-z0-9_]*' $d/demo_test.go | sed 's/func //' | grep -v Helper | paste -sd'|'))\$" ./test/ >/tmp/vseed_$name.demo 2>&1; rc=$?
-    rm -f $wt/test/zz_seed_demo_test.go; return $rc
+    # the demonstration goes into the directory of the package it declares (package x or x_test -> the directory named x)
+    pk=$(grep -m1 '^package ' $d/demo_test.go | awk '{print $2}' | sed 's/_test$//')
+    dir=$(cd $wt && find . -type d -name "$pk" -not -path './.git/*' | head -1); [ -z "$dir" ] && dir=./test
+    cp $d/demo_test.go $wt/$dir/zz_seed_demo_test.go
+    go test -mod=mod -vet=off -count=1 -run "^($(grep -o 'func Test[A-Za-z0-9_]*' $d/demo_test.go | sed 's/func //' | grep -v Helper | paste -sd'|'))\$" $dir/ >/tmp/vseed_$name.demo 2>&1; rc=$?
+    rm -f $wt/$dir/zz_seed_demo_test.go; return $rc
   fi
   return 99
 }
